@@ -74,7 +74,7 @@ def main():
                                text='Static rule checking of necessary structural conditions on the type-checked MIR of the current tree, for all inputs that can take a path: ' + text + '.',
                                design_ref='DESIGN.md §5 ' + pid),
             level_note='Decides the listed structural clauses only; ' + note + '. Trusted: rustc nightly front end / MIR construction (the repository itself builds with stable), prost, ocipkg, std.',
-            technique=TECH.get(pid, 'custom MIR dataflow / CFG / call-graph rules (rustc_private fact extractor + Python rule engine), positive controls on every run'),
+            technique=TECH.get(pid, 'custom MIR dataflow / CFG / call-graph rules (rustc_private fact extractor + Python rule engine) over a normal form of the facts (helpers unknown to the pinned tree inlined, iterator chains and closures desugared to explicit loops), kernels of other properties the behaviour goes through re-decided (RELIES_ON), positive controls on every run'),
         ))
     m = dict(
         version=1,
@@ -83,7 +83,7 @@ def main():
                    baseline_off_cmd='cd /repo && cargo nextest run --workspace --no-fail-fast --offline || cargo test --workspace --lib --bins --tests --no-fail-fast --offline',
                    source_commits=[], add_only=True),
         engines=[dict(name='factdrv', path='engine/factdrv', serves_properties=[c['property_id'] for c in checks], kind_free_text='rustc_private driver exporting mini-MIR, ADT, impl and const facts of crate ommx as JSON lines'),
-                 dict(name='sa', path='engine/sa', serves_properties=[c['property_id'] for c in checks], kind_free_text='Python static-analysis engine: CFG (dominators, exits, loops), backward slices with callee summaries, call-graph cones, rule templates; schema comparison for C07'),
+                 dict(name='sa', path='engine/sa', serves_properties=[c['property_id'] for c in checks], kind_free_text='Python static-analysis engine: CFG (dominators, exits, loops), backward slices with callee summaries, call-graph cones, normal form (sa.normalize: helper inlining, iterator desugaring, jump threading), rule templates; schema comparison for C07'),
                  dict(name='controls', path='engine/controls', serves_properties=[c['property_id'] for c in checks], kind_free_text='fixture crate with seeded bad/good twins per rule template, analysed by the same driver on every run')],
         checks=checks,
         not_applicable=na,
